@@ -19,7 +19,7 @@ from .rust_text import LostAnchor
 from . import run as vrun
 
 EVID = os.environ.get('VERIF_EVIDENCE_DIR') or os.path.join(ROOT, 'evidence')
-REPLAY = os.path.join(ROOT, 'build', 'replay')
+REPLAY = os.path.join(os.environ.get('VERIF_BUILD_DIR') or os.path.join(ROOT, 'build'), 'replay')
 
 
 def load_json(path, default):
